@@ -38,7 +38,7 @@ logging.disable(logging.CRITICAL)
 NAME = 'c05_queue'
 BUILD_KEY = 'pre-merge'
 GREEN = 'SUCCESSFUL'
-NONGREEN = ('FAILED', 'INPROGRESS', 'NOTSTARTED')
+NONGREEN = ('FAILED', 'INPROGRESS', 'NOTSTARTED', 'STOPPED')
 STATUSES = (GREEN,) + NONGREEN
 
 # ----------------------------------------------------------------------- #
@@ -636,7 +636,7 @@ def status_of_mask(keys, mask, seed):
     pattern: non-green commits rotate through FAILED/INPROGRESS/NOTSTARTED
     (mixed within one assignment)."""
     rot = popcount(mask) + seed
-    return {k: (GREEN if mask >> i & 1 else NONGREEN[(i + rot) % 3])
+    return {k: (GREEN if mask >> i & 1 else NONGREEN[(i + rot) % len(NONGREEN)])
             for i, k in enumerate(keys)}
 
 
@@ -726,7 +726,7 @@ def check_tuple(shape, prs, seed, acc, forces=(False, True),
             else:
                 rot = popcount(mask) + seed
                 assign = {s: (GREEN if mask >> i & 1
-                              else NONGREEN[(i + rot) % 3])
+                              else NONGREEN[(i + rot) % len(NONGREEN)])
                           for i, s in enumerate(shas)}
                 green = mask
             try:
